@@ -510,7 +510,7 @@ func posScenarios(id, tier string) []Scenario {
 			evB("burn(k0,0.6) forces unstake without jailing", chain.Event{Kind: "burn", Who: 0, Sev: "0.6"}),
 			Choice{Label: "M+burn(k0,0.6)", Block: chain.Block{Missed: []int{0}, Events: []chain.Event{{Kind: "burn", Who: 0, Sev: "0.6"}}}},
 		}
-		k, d := kd(3, 5, 5, 7)
+		k, d := kd(3, 5, 4, 6)
 		scs = append(scs, Scenario{Name: "interleaved-W=2", Cfg: windowCfg(2, 1, 2, 2*min), Alphabet: inter, K: k, D: d, Tail: 1})
 		scs = append(scs, Scenario{Name: "interleaved-W=3", Cfg: windowCfg(3, 1, 2, 2*min), Alphabet: inter, K: k, D: d, Tail: 1})
 		kf, df := kd(2, 4, 4, 5)
